@@ -35,11 +35,13 @@ ASSUMPTIONS = ["a connection that the hostile bytes cause to be closed is an "
                "step budget = 400 + 60 * (bytes fed) executed source lines "
                "in the read loops per run-to-quiescence; calibrated two "
                "orders of magnitude above valid traffic",
-               "frames with a declared length below 8 end the walk (anything "
-               "but delivering them is accepted)"]
+               "frames with a declared length below 8 end the walk; the "
+               "connection must then be closed (or the header answered)"]
 REQUIRED = ["cases", "ctl_cases", "sw_cases", "hostile_units", "closed_by_input",
             "survived_input", "sibling_messages_checked", "loops_alive_checked",
-            "frames_walked", "budget_armed", "hostile_during_handshake"]
+            "frames_walked", "budget_armed", "hostile_during_handshake",
+            "hostile_and_valid_traffic_in_one_segment", "declared_length_below_8_judged",
+            "hostile_completed_while_siblings_are_ready"]
 TIMEOUT = {"quick": 1200, "thorough": 9000}
 
 _st = {}
@@ -259,16 +261,30 @@ def ctl_case (rig, case, rep, fire):
            "step budget exceeded at %s" % rig.budget.where)
       return False
     return True
-  for m in pre:
-    X["s"].send(m); fed += m
-  sibling_round()
-  if not run_budget(len(fed) + 200): return
-  X["s"].send(hostile); fed += hostile
-  if not run_budget(len(hostile) + 200): return
-  sibling_round()
-  for m in post:
-    X["s"].send(m); fed += m
-  if not run_budget(len(fed) + 400): return
+  place = case.get("place", 0)
+  if place == 1:
+    fed = b"".join(pre) + hostile + b"".join(post)
+    rep.count("hostile_and_valid_traffic_in_one_segment")
+    sibling_round()
+    X["s"].send(fed)
+    if not run_budget(len(fed) + 400): return
+  else:
+    for m in pre:
+      X["s"].send(m); fed += m
+    sibling_round()
+    if not run_budget(len(fed) + 200): return
+    if place == 2:
+      rep.count("hostile_and_valid_traffic_in_one_segment")
+      sibling_round()
+      X["s"].send(hostile + b"".join(post)); fed += hostile + b"".join(post)
+      if not run_budget(len(fed) + 400): return
+    else:
+      X["s"].send(hostile); fed += hostile
+      if not run_budget(len(hostile) + 200): return
+      sibling_round()
+      for m in post:
+        X["s"].send(m); fed += m
+      if not run_budget(len(fed) + 400): return
   sibling_round()
   if not run_budget(400): return
   judge(rep, fire, "controller", fed, delivered,
@@ -368,16 +384,44 @@ def sw_case (rig, case, rep, fire):
            "step budget exceeded at %s" % rig.budget.where)
       return False
     return True
-  for m in pre:
-    X["peer"].send(m); fed += m
-  sibling_round()
-  if not run_budget(len(fed) + 200): return
-  X["peer"].send(hostile); fed += hostile
-  if not run_budget(len(hostile) + 200): return
-  sibling_round()
-  for m in post:
-    X["peer"].send(m); fed += m
-  if not run_budget(len(fed) + 400): return
+  place = case.get("place", 0)
+  if place == 3:
+    # a message far larger than one read: all but its last bytes first, then
+    # the rest together with the siblings' messages, so that whatever its
+    # completion provokes happens in a round in which the siblings are ready
+    fed = b"".join(pre) + hostile + b"".join(post)
+    k = len(b"".join(pre)) + len(hostile) - 64
+    X["peer"].send(fed[:k])
+    if not run_budget(k + 400): return
+    rep.count("hostile_completed_while_siblings_are_ready")
+    sibling_round()
+    X["peer"].send(fed[k:])
+    if not run_budget(len(fed) + 400): return
+  elif place == 1:
+    # valid traffic and the hostile bytes in ONE segment, and the siblings'
+    # messages ready in the same round of the I/O loop
+    fed = b"".join(pre) + hostile + b"".join(post)
+    rep.count("hostile_and_valid_traffic_in_one_segment")
+    sibling_round()
+    X["peer"].send(fed)
+    if not run_budget(len(fed) + 400): return
+  else:
+    for m in pre:
+      X["peer"].send(m); fed += m
+    sibling_round()
+    if not run_budget(len(fed) + 200): return
+    if place == 2:
+      rep.count("hostile_and_valid_traffic_in_one_segment")
+      sibling_round()
+      X["peer"].send(hostile + b"".join(post)); fed += hostile + b"".join(post)
+      if not run_budget(len(fed) + 400): return
+    else:
+      X["peer"].send(hostile); fed += hostile
+      if not run_budget(len(hostile) + 200): return
+      sibling_round()
+      for m in post:
+        X["peer"].send(m); fed += m
+      if not run_budget(len(fed) + 400): return
   sibling_round()
   if not run_budget(400): return
   wk = X["sp"].worker
@@ -387,8 +431,10 @@ def sw_case (rig, case, rep, fire):
       if m["name"] == "error": errs.add(m["xid"])
   except ofwire.WireError:
     fire("switch wrote undecodable bytes", ""); return
+  # (closed as the *peer* can see it - the socket closed or shut down for
+  #  writing - not a flag inside the worker)
   judge(rep, fire, "switch", fed, X["delivered"],
-        closed=wk.closed or wk._shutdown_send or X["sp"].sock.closed,
+        closed=wk.closed or X["sp"].sock.closed or X["sp"].sock.shut_wr,
         pristine=[struct.unpack_from("!L", m, 4)[0] for m in pre + post],
         marker_type=2, answered=errs)
   for i, P in enumerate((Y, Z)):
@@ -453,6 +499,20 @@ def judge (rep, fire, side, fed, delivered, closed, pristine, marker_type,
            "length: %r" % (t, x, i, [(f[1], hex(f[2]), f[3]) for f in frames]))
       return
     i = j + 1
+  # a header that declares a length below 8 cannot be skipped (nobody knows
+  # where the next message starts): the statement's other outcome - the
+  # connection is closed - is what is left
+  if len(fed) - end >= 8:
+    l = struct.unpack_from("!H", fed, end + 2)[0]
+    if l < 8:
+      rep.count("declared_length_below_8_judged")
+      ex = struct.unpack_from("!L", fed, end + 4)[0]
+      if not closed and ex not in answered:
+        fire("bytes neither answered with an error nor the connection closed "
+             "(declared length below 8) (%s)" % side,
+             "header %s at offset %d; the connection is still open" %
+             (fed[end:end + 8].hex(), end))
+        return
   # a connection that stayed open must not have dropped valid traffic that
   # is aligned with the frame walk
   if not closed:
@@ -665,6 +725,8 @@ def run (spec, rep):
     i += 1
     if i % spec["nsub"] != spec["sub"]: continue
     case = dict(side=spec["side"], hostile=h, npre=i % 3, label=label)
+    if len(h) < 4000: case["place"] = (i // 3) % 3
+    elif spec["side"] == "sw": case["place"] = 3   # (input that makes the read raise, with the siblings ready in the same round)
     if spec["side"] == "ctl" and len(h) < 4000:
       # a third of the controller-side units arrive during the handshake
       ph = (i // spec["nsub"]) % 6
